@@ -20,7 +20,7 @@ def iosToJson : IntOrPct → Json
   | .pct p => mkObj [("p", intJ p)]
   | .bad => mkObj [("s", strJ "?")]
 
-def handle : Handler := fun op inp _impl => do
+def handle : Handler := fun op inp impl => do
   match op with
   | "calcBatch" =>
     let r ← fInt inp "replicas"
@@ -30,7 +30,10 @@ def handle : Handler := fun op inp _impl => do
     let s ← fInt inp "stable"
     let a ← fInt inp "all"
     let c ← iosOfJson (← jget inp "canary")
-    return { model := iosToJson (parsePct s a c) }
+    -- C01 (scaling): the partition of a percentage plan is itself a percentage (`ParseIntegerAsPercentageIfPossible` "will
+    -- return a percentage type IntOrString"), so that the workload controller re-scales it when the size changes
+    let isPct := match impl with | .obj _ => (jopt impl "p").isSome | _ => false
+    return { model := iosToJson (parsePct s a c), holds := [("C01.percent_partition_is_percentage", isPct)] }
   | "rsLimit" =>
     let r ← fInt inp "replicas"
     let p ← iosOfJson (← jget inp "partition")
